@@ -8,6 +8,7 @@ package dastard
 // describe exactly the channel numbers the running source uses.
 
 import (
+	"encoding/json"
 	"fmt"
 	"os"
 	"path/filepath"
@@ -71,6 +72,11 @@ func c19rRun(c c19rCase) (v vVerdict) {
 	os.RemoveAll(root)
 	os.MkdirAll(root, 0o755)
 	defer os.RemoveAll(root)
+	// Start stores the channel groups for other programs in $HOME/.dastard/channels.json
+	os.MkdirAll(filepath.Join(root, ".dastard"), 0o755)
+	oldHome := os.Getenv("HOME")
+	os.Setenv("HOME", root)
+	defer os.Setenv("HOME", oldHome)
 	vDrainRecords()
 	viper.Reset()
 	sc := NewSourceControl()
@@ -141,7 +147,18 @@ func c19rRun(c c19rCase) (v vVerdict) {
 				}
 			}
 		}
+		stored, rerr := os.ReadFile(filepath.Join(root, ".dastard", "channels.json"))
 		stop()
+		if rerr != nil {
+			return vFailf("stored-groups-missing", "round %d: Start succeeded but the stored channel-group report cannot be read: %v", i, rerr)
+		}
+		var storedGroups []GroupIndex
+		if err := json.Unmarshal(stored, &storedGroups); err != nil {
+			return vFailf("stored-groups-unreadable", "round %d: the stored channel-group report is not valid JSON (%v): %s", i, err, vTrim(string(stored), 300))
+		}
+		if haveStatus && fmt.Sprint(storedGroups) != fmt.Sprint(groups) {
+			return vFailf("stored-groups-differ", "round %d: the stored channel-group report says %v, the STATUS message %v", i, storedGroups, groups)
+		}
 		if !haveStatus {
 			return vFailf("status-not-sent", "round %d: Start succeeded but no STATUS message was sent to clients", i)
 		}
